@@ -119,6 +119,26 @@ def ssa_list(draw, max_inputs=6, max_inter=3, max_rets=3, depth=3, ops=("and", "
         lst.append([nm, e])
         names.append(nm)
     n_ret = draw(st.integers(1, max_rets))
+    if draw(st.integers(0, 9)) < 3:
+        # chain of nested shared sub-terms s1 < s2 < s3 ..., each used by several definitions, some of them
+        # mentioning an intermediate: what common-sub-expression extraction has to order correctly
+        chain = [draw(expr(names, 1, ("and", "or", "xor"), consts=False))]
+        for _ in range(draw(st.integers(1, 3))):
+            other = draw(lit(names))
+            op = draw(st.sampled_from(["and", "or", "xor"]))
+            chain.append([op, [chain[-1], other] if draw(st.booleans()) else [other, chain[-1]]])
+        lst2 = []
+        for nm, e in lst:
+            lst2.append([nm, e])
+        # every level of the chain is used at least twice (so that it is extracted), deepest first
+        uses = [chain[-1], chain[-1]] + [chain[i] for i in range(len(chain) - 2, -1, -1)]
+        extra = draw(st.integers(0, 1))
+        for _ in range(extra):
+            uses.append(chain[draw(st.integers(0, len(chain) - 1))])
+        for r, u in enumerate(uses):
+            e = [draw(st.sampled_from(["xor", "xor", "and", "or"])), [u, draw(lit(inputs))]]
+            lst2.append([f"_ret.{r}", e])
+        return {"inputs": inputs, "defs": lst2, "chain": True}
     shared = draw(expr(names, 1, ops)) if draw(st.booleans()) else None
     for r in range(n_ret):
         if draw(st.integers(0, 3)) == 0:
